@@ -5,16 +5,19 @@
 import YowsupVerif.Drv.Segments
 import YowsupVerif.Drv.Coder
 import YowsupVerif.Drv.Stack
+import YowsupVerif.Drv.Locks
 open Yow Yow.Drv
 
 structure DrvState where
   seg : Segments.St := { enabled := true, buf := [] }
   stack : StackSt := {}
+  locks : LocksSt := {}
 
 def step (s : DrvState) (line : String) : DrvState × String :=
   match (line.splitOn " ").filter (· ≠ "") with
   | "seg" :: rest => let r := segStep s.seg rest; ({ s with seg := r.1 }, r.2)
   | "coder" :: rest => (s, coderStep rest)
+  | "locks" :: rest => let r := locksStep s.locks rest; ({ s with locks := r.1 }, r.2)
   | "stack" :: rest => let r := stackStep s.stack rest; ({ s with stack := r.1 }, r.2)
   | _ => (s, "bad-op")
 
